@@ -432,3 +432,28 @@ package ggql
 //@   ensures[err-null] err != nil ==> res == nil
 
 //@ -- END generated scalar contracts
+
+//@ -- ------------------------------------------------------------------ C06 error paths
+//@ spec prefixed(e *Error, loc interface{}) bool = len(e.Path) == old(len(e.Path)) + 1 && e.Path[0] == loc && (forall j int :: 0 <= j && j < old(len(e.Path)) ==> e.Path[j+1] == old(e.Path[j]))
+//@ spec samePath(e *Error) bool = len(e.Path) == old(len(e.Path)) && (forall j int :: 0 <= j && j < len(e.Path) ==> e.Path[j] == old(e.Path[j]))
+
+//@ func (*Error).in
+//@   props C06
+//@   check panic {C03}
+//@   check frame {C06}
+//@   requires err != nil
+//@   ensures[prefix-once] prefixed(err, loc)
+//@   assigns fresh, err.Path
+
+//@ func (Errors).in
+//@   props C06
+//@   check panic {C03}
+//@   check frame {C06}
+//@   requires forall i int, j int :: 0 <= i && i < j && j < len(err) && aserr(err[i]) != nil ==> aserr(err[i]) != aserr(err[j])
+//@   requires forall i int :: 0 <= i && i < len(err) ==> allocated(aserr(err[i]))
+//@   ensures[each-once] forall i int :: 0 <= i && i < len(err) && aserr(err[i]) != nil ==> prefixed(aserr(err[i]), loc)
+//@   assigns fresh, H_Error.Path
+//@   loop 0: invariant 0 <= rangeindex+1 && rangeindex+1 <= len(err)
+//@           invariant forall i int :: 0 <= i && i <= rangeindex && aserr(err[i]) != nil ==> prefixed(aserr(err[i]), loc)
+//@           invariant forall i int :: rangeindex < i && i < len(err) && aserr(err[i]) != nil ==> samePath(aserr(err[i]))
+//@           decreases len(err) - rangeindex
